@@ -5,6 +5,7 @@ package server
 // detector, the binary is built with -race) and a fake runner. DESIGN.md §3 C15.
 
 import (
+	"errors"
 	"strconv"
 	"regexp"
 	"bytes"
@@ -46,6 +47,7 @@ type c15Case struct {
 	MaxLoaded int        `json:"max_loaded"`
 	KeepAlive int        `json:"keep_alive"`
 	LoadUs    int        `json:"load_us"`
+	FailEvery int        `json:"fail_every,omitempty"` // every n-th runner fails to load (the process dies while loading); 0 = none
 	Clients   [][]c15Req `json:"clients"`
 }
 
@@ -61,6 +63,7 @@ func c15Gen(t *rapid.T) c15Case {
 	c.MaxLoaded = rapid.IntRange(1, 3).Draw(t, "max_loaded")
 	c.KeepAlive = rapid.IntRange(0, len(c15KeepEv)-1).Draw(t, "keep_alive")
 	c.LoadUs = rapid.SampledFrom([]int{0, 100, 1000, 3000}).Draw(t, "load_us")
+	c.FailEvery = rapid.SampledFrom([]int{0, 0, 2, 3, 5}).Draw(t, "fail_every")
 	nc := rapid.IntRange(3, 10).Draw(t, "clients")
 	for i := 0; i < nc; i++ {
 		n := rapid.IntRange(3, 20).Draw(t, "n_req")
@@ -91,6 +94,7 @@ type c15Runner struct {
 	born  int64
 	close atomic.Int64
 	delay time.Duration
+	fail  bool // the load fails
 }
 
 func (r *c15Runner) Ping(context.Context) error { return nil }
@@ -101,6 +105,9 @@ func (r *c15Runner) WaitUntilRunning(ctx context.Context) error {
 		case <-ctx.Done():
 			return ctx.Err()
 		}
+	}
+	if r.fail {
+		return errors.New("fake: llama runner process has terminated")
 	}
 	return nil
 }
@@ -137,12 +144,14 @@ type c15World struct {
 	mu      sync.Mutex
 	runners []*c15Runner
 	loadUs  int
+	failN   int
 }
 
 func (w *c15World) newServer(_ discover.GpuInfoList, model string, _ *ggml.GGML, _, _ []string, _ api.Options, _ int) (llm.LlamaServer, error) {
 	r := &c15Runner{w: w, name: model, born: w.clock.Add(1), delay: time.Duration(w.loadUs) * time.Microsecond}
 	w.mu.Lock()
 	w.runners = append(w.runners, r)
+	r.fail = w.failN > 0 && len(w.runners)%w.failN == 0
 	w.mu.Unlock()
 	return r, nil
 }
@@ -181,7 +190,7 @@ func c15Run(c c15Case) (classes []string, nontrivial bool, err error) {
 	} else {
 		os.Unsetenv("OLLAMA_KEEP_ALIVE")
 	}
-	w := &c15World{loadUs: c.LoadUs}
+	w := &c15World{loadUs: c.LoadUs, failN: c.FailEvery}
 	ctx, cancel := context.WithCancel(context.Background())
 	defer cancel()
 	s := Server{sched: InitScheduler(ctx)}
@@ -247,12 +256,16 @@ func c15Run(c c15Case) (classes []string, nontrivial bool, err error) {
 	for i, name := range c15Models {
 		g := c04GGUFs[i%len(c04GGUFs)]
 		do("POST", "/api/blobs/"+frDigest(g), g)
-		if code, body := do("POST", "/api/create", map[string]any{"model": name, "files": map[string]string{"m.gguf": frDigest(g)}, "stream": false,
+		creq := map[string]any{"model": name, "files": map[string]string{"m.gguf": frDigest(g)}, "stream": false,
 			"template": "{{ .System }} {{ .Prompt }}", "system": "be brief", "license": "L" + fmt.Sprint(i),
 			// MESSAGE and PARAMETER entries: per-model slices and maps that every request for the model reads (and chat / show
 			// extend) - they must not be shared between requests
 			"messages":   []map[string]string{{"role": "user", "content": "q1"}, {"role": "assistant", "content": "a1"}, {"role": "user", "content": "q2"}}[:1+2*(i%2)],
-			"parameters": map[string]any{"temperature": 0.5, "stop": []string{"<stop>"}}}); code != 200 {
+			"parameters": map[string]any{"temperature": 0.5, "stop": []string{"<stop>"}}}
+		if i >= 2 {
+			delete(creq, "template") // models without a TEMPLATE layer all use the one package-level default template
+		}
+		if code, body := do("POST", "/api/create", creq); code != 200 {
 			return nil, false, fmt.Errorf("set-up create of %s failed: %d %s", name, code, body)
 		}
 	}
